@@ -598,6 +598,7 @@ macro_rules! strict_term {
             let arr = |x: &Sx| SemifiniteFunction::<$m::K, usize>($m::d_arr(x).expect("bad term"));
             match d_sym(&l[0]).expect("bad term") {
                 "s" => Some(Val::$variant($m::d_ohg(&l[1]).expect("bad term"))),
+                "sunit" => Some(Val::$variant($m::OHG::identity(<$m::OHG as Monoidal>::unit()))),
                 "sid" => Some(Val::$variant($m::OHG::identity(arr(&l[1])))),
                 "stwist" => Some(Val::$variant($m::OHG::twist(arr(&l[1]), arr(&l[2])))),
                 "sspider" => $m::OHG::spider(
@@ -656,6 +657,7 @@ fn lax_term<K>(
             Some(Val::S(s_from_lab(StrictFunctor::map_arrow(&df, &f))))
         }
         "l" => Some(Val::L(d_lohg(&l[1]).expect("bad term"))),
+        "lunit" => Some(Val::L(<LOHG as Arrow>::identity(<LOHG as Monoidal>::unit()))),
         "lid" => Some(Val::L(<LOHG as Arrow>::identity(nats(&l[1])))),
         "ltwist" => Some(Val::L(<LOHG as SymmetricMonoidal>::twist(nats(&l[1]), nats(&l[2])))),
         "lspider" => <LOHG as Spider<VecKind>>::spider(
